@@ -70,10 +70,12 @@ func NewReloadableOrchestrator(downstream base.Orchestrator, initiateReload Init
 
 // NewSink creates a new reloadable sink for an input source (e.g. incoming TCP connection)
 func (orc *ReloadableOrchestrator) NewSink(clientAddress string, clientNumber base.ClientNumber) base.BufferReceiverSink {
-	newDownstream := orc.downstream.NewSink(clientAddress, clientNumber)
-
 	lockT := orc.downstreamMutex.RLock() // only read-lock since we assume clientNumber is unique and nobody else is accessing it
 	defer orc.downstreamMutex.RUnlock(lockT)
+
+	// the downstream orchestrator must be accessed within the lock, or the new sink could belong to an orchestrator
+	// which has been shut down by reloading in the meantime
+	newDownstream := orc.downstream.NewSink(clientAddress, clientNumber)
 
 	if orc.downstreamSinks[clientNumber] != nil {
 		orc.logger.WithFields(logger.Fields{
